@@ -14,6 +14,9 @@ TraceHist == Hdr.hist
 VARIABLE l
 tvars == <<vars, l>>
 TraceInit == Init /\ l = 2
+(* traces without reply observations: which failure reply a failed handshake got is not observable; states that
+   differ only in `replies` are identified so that the search stays linear *)
+NoReplyView == <<ph, log, upUp, alive, gcq, history, lines, created, l>>
 IsEvent(e) == l <= Len(Rec) /\ Rec[l].ev = e /\ l' = l + 1
 ToSet(s) == {s[i] : i \in 1..Len(s)}
 
